@@ -703,7 +703,7 @@ func genB(t *rapid.T) CaseB {
 }
 
 var partB = ev.NewCheck("C17", "midicatdrv-histories",
-	"rapid plus twelve fixed re-listening histories (listen - inject - stop repeated two to four times in one open session with the sysex option changing) (run in the race-detector build): histories of 4..25 operations on the process-backed driver against the stand-in helper binary: out.Open/Close (also twice), bursts of 1..4 concurrent sender goroutines with 1..12 messages each, out.Close while senders are running, in.Open/Close (also twice), In.Listen or midi.ListenTo with the sysex option drawn per listening (sysex records are injected for a listener that asked for them), stop (also twice, also while records are flowing), Driver.Close racing with the Open of another port (followed by a quiet Driver.Close after which every port must be closed), injection of 1..30 records (3-byte and 2-byte messages, unique time stamps) into the helper; the harness is the cable (it reads what the out helper received and writes what the in helper emits); oracle: every line sent with a nil result on the open port reaches the helper exactly once and per sender in order, Send on a closed port gives ErrPortClosed and nothing arrives, records injected while a listener is active (and drained) reach exactly that listener once and in order (in-flight records from a listener-less gap may precede them, at most once), a stopped listener is never called again, Listen works again after stop, Listen on a closed port does not block or panic, Open/Close/stop are idempotent, every call returns within 20 s, no panic, no data race report; non-trivial = >= 2 concurrent senders and a stop while records are flowing; distinct by case hash",
+	"rapid plus twelve fixed re-listening histories (listen - inject - stop repeated two to four times in one open session with the sysex option changing) plus three fixed histories per shard that close an out-port six times under the load of four senders (run in the race-detector build): histories of 4..25 operations on the process-backed driver against the stand-in helper binary: out.Open/Close (also twice), bursts of 1..4 concurrent sender goroutines with 1..12 messages each, out.Close while senders are running, in.Open/Close (also twice), In.Listen or midi.ListenTo with the sysex option drawn per listening (sysex records are injected for a listener that asked for them), stop (also twice, also while records are flowing), Driver.Close racing with the Open of another port (followed by a quiet Driver.Close after which every port must be closed), injection of 1..30 records (3-byte and 2-byte messages, unique time stamps) into the helper; the harness is the cable (it reads what the out helper received and writes what the in helper emits); oracle: every line sent with a nil result on the open port reaches the helper exactly once and per sender in order, Send on a closed port gives ErrPortClosed and nothing arrives, records injected while a listener is active (and drained) reach exactly that listener once and in order (in-flight records from a listener-less gap may precede them, at most once), a stopped listener is never called again, Listen works again after stop, Listen on a closed port does not block or panic, Open/Close/stop are idempotent, every call returns within 20 s, no panic, no data race report; non-trivial = >= 2 concurrent senders and a stop while records are flowing; distinct by case hash",
 	genB, runB)
 
 // TestRaceMidicatHistories runs in the race build only (bin/verif starts that binary with VERIF_RACE=1).
@@ -742,6 +742,28 @@ func TestRaceRelisten(t *testing.T) {
 			if t.Failed() {
 				return
 			}
+		}
+	}
+}
+
+// TestRaceCloseWhileSending: fixed histories in which an out-port is closed several times while four
+// sender goroutines are busy (open, close under load, again), the close falling 0..2 ms after the
+// senders were started. Every shard takes other offsets.
+func TestRaceCloseWhileSending(t *testing.T) {
+	if !raceMode() {
+		t.Skip("part B runs in the race build")
+	}
+	for h := 0; h < 3; h++ {
+		c := CaseB{InPort: 1, OutPort: h % 2}
+		for k := 0; k < 6; k++ {
+			c.Ops = append(c.Ops, OpB{Kind: "OpenOut"},
+				OpB{Kind: "CloseOutWhileSending", Senders: 4, PerSender: 40, N: (ev.Shard()*7 + h*5 + k*3) % 21})
+		}
+		c.Ops = append(c.Ops, OpB{Kind: "Send", Senders: 1, PerSender: 2})
+		logHistory("midicatdrv-histories", c)
+		partB.One(t, c)
+		if t.Failed() {
+			return
 		}
 	}
 }
